@@ -274,6 +274,9 @@ YSaltDecodes(salt) ==
   /\ \A i \in 1..Len(salt) : IsB64(salt[i])
   /\ (Len(salt) % 4) # 1
   /\ (Len(salt) \div 4) * 3 + (IF (Len(salt) % 4) = 0 THEN 0 ELSE (Len(salt) % 4) - 1) <= 64
+  \* the bits of a trailing partial group that do not fill a byte must be zero (canonical encoding)
+  /\ ((Len(salt) % 4) = 2 => B64Val(salt[Len(salt)]) < 4)
+  /\ ((Len(salt) % 4) = 3 => B64Val(salt[Len(salt)]) < 16)
 
 \* parameters of a $y$-style setting starting at index i (after the 3-char tag)
 \* returns [ok, known, saltstart]: known = the KDF is certain to accept the parameters
@@ -287,7 +290,7 @@ YParams(s, i) ==
   IF ~r.ok THEN [ok |-> FALSE, known |-> FALSE, saltstart |-> 0]
   ELSE IF At(s, r.next) = 36
          THEN [ok |-> TRUE,
-               known |-> (fl.val = 10 /\ ~r.big /\ r.val <= 64 /\ nl.val >= 3 /\ nl.val <= 20),
+               known |-> (fl.val = 47 /\ ~r.big /\ r.val <= 64 /\ nl.val >= 3 /\ nl.val <= 20),
                saltstart |-> r.next + 1]
          ELSE \* optional group present: syntax only, acceptance left to the KDF
               LET have == Dec64Var(s, r.next, 1) IN
@@ -371,7 +374,9 @@ PhraseKey(m0, p, slen) ==
   LET m == Effective(m0, Len(p), slen) IN
   CASE m = "descrypt" -> <<"des">> \o PadTo(Mask7(Take(p, 8)), 8)
     [] m = "bigcrypt" -> LET q == Take(p, 128)  segs == Max(1, Min(16, CeilDiv8(Len(p)))) IN
-                         <<"big", segs>> \o PadTo(Mask7(q), 8 * segs)
+                         \* one segment is exactly the traditional hash (crypt(5): identical for <= 8 characters)
+                         IF segs = 1 THEN <<"des">> \o PadTo(Mask7(q), 8)
+                         ELSE <<"big", segs>> \o PadTo(Mask7(q), 8 * segs)
     [] m = "bsdicrypt" -> LET blocks == Max(1, CeilDiv8(Len(p))) IN <<"bsdi", blocks>> \o PadTo(Mask7(p), 8 * blocks)
     [] m \in {"bcrypt", "bcrypt_a", "bcrypt_x", "bcrypt_y"} -> <<"bf">> \o Cyclic(p \o <<0>>, 1, 72)
     [] OTHER -> <<"all">> \o p
